@@ -89,14 +89,19 @@ impl fmt::Debug for Response {
     }
 }
 
-/// A cache for field names used in responses.
+/// Per-connection parser state: a cache for field names used in responses, and the response that
+/// was in progress when the last [`ResponseBuilder`] was dropped.
+///
+/// Keeping the latter here makes receiving cancellation safe: if a `receive()` future is dropped
+/// after it has already consumed part of a response, the next call picks up where it left off
+/// instead of losing the consumed lines.
 #[derive(Clone, Debug)]
-pub(crate) struct ResponseFieldCache(HashSet<Arc<str>, ahash::RandomState>);
+pub(crate) struct ResponseFieldCache(HashSet<Arc<str>, ahash::RandomState>, ResponseState);
 
 impl ResponseFieldCache {
     /// Returns a new, empty cache.
     pub(crate) fn new() -> ResponseFieldCache {
-        ResponseFieldCache(HashSet::default())
+        ResponseFieldCache(HashSet::default(), ResponseState::Initial)
     }
 
     /// Insert a field name into the cache or retrieve a reference to an already existing entry.
@@ -131,10 +136,9 @@ enum ResponseState {
 
 impl<'a> ResponseBuilder<'a> {
     pub(crate) fn new(field_cache: &'a mut ResponseFieldCache) -> Self {
-        Self {
-            field_cache,
-            state: ResponseState::Initial,
-        }
+        // Resume a response left unfinished by a previous (cancelled) builder
+        let state = mem::replace(&mut field_cache.1, ResponseState::Initial);
+        Self { field_cache, state }
     }
 
     pub(crate) fn parse(
@@ -144,7 +148,10 @@ impl<'a> ResponseBuilder<'a> {
         while !src.is_empty() {
             let (remaining, component) = match ParsedComponent::parse(src, self.field_cache) {
                 Err(e) if e.is_incomplete() => break,
-                Err(_) => return Err(MpdProtocolError::InvalidMessage),
+                Err(_) => {
+                    self.state = ResponseState::Initial;
+                    return Err(MpdProtocolError::InvalidMessage);
+                }
                 Ok(p) => p,
             };
 
@@ -252,6 +259,13 @@ impl<'a> ResponseBuilder<'a> {
                 error: Some(error),
             },
         }
+    }
+}
+
+impl Drop for ResponseBuilder<'_> {
+    fn drop(&mut self) {
+        // Keep a partially received response for the next builder on this connection
+        self.field_cache.1 = mem::replace(&mut self.state, ResponseState::Initial);
     }
 }
 
